@@ -3,8 +3,11 @@ package rules
 import (
 	"fmt"
 	"go/ast"
+	"go/importer"
+	"go/parser"
 	"go/token"
 	"go/types"
+	"path/filepath"
 	"sort"
 	"strings"
 
@@ -40,6 +43,8 @@ func checkC11(c *core.Ctx) {
 	attributeMatrix(c, p)
 	flagDispatch(c, p, "R3")
 	whitespaceAgreement(c, p)
+	deprecationIndependent(c, p, "R5")
+	limitedBufio(c, p, "R6")
 }
 
 // whitespaceAgreement: R4. Two places decide what is insignificant
@@ -568,3 +573,160 @@ func flagDispatch(c *core.Ctx, p *load.Prog, rule string) {
 }
 
 var _ = load.Mod
+
+// deprecationIndependent: R5. `[deprecated("")]` is well formed (readDeprecated
+// accepts any string literal), so whether a member is deprecated must be
+// recorded apart from the message text: the Deprecated value of every member
+// built in the four member loops is a boolean variable that only ever holds a
+// constant and is set to true in the clause that called readDeprecated.
+func deprecationIndependent(c *core.Ctx, p *load.Prog, rule string) {
+	pkg := p.Bebop()
+	info := pkg.TypesInfo
+	n := 0
+	for _, name := range []string{"readEnum", "readStruct", "readMessage", "readUnion"} {
+		fd := p.FuncDecl(pkg, name)
+		if fd == nil {
+			continue
+		}
+		var vals []ast.Expr
+		ast.Inspect(fd.Body, func(nd ast.Node) bool {
+			switch y := nd.(type) {
+			case *ast.KeyValueExpr:
+				if wire.Canon(y.Key) == "Deprecated" {
+					vals = append(vals, y.Value)
+				}
+			case *ast.AssignStmt:
+				for i, l := range y.Lhs {
+					if sel, ok := l.(*ast.SelectorExpr); ok && sel.Sel.Name == "Deprecated" && i < len(y.Rhs) {
+						vals = append(vals, y.Rhs[i])
+					}
+				}
+			}
+			return true
+		})
+		for i, v := range vals {
+			n++
+			key := fmt.Sprintf("%s: Deprecated of a member does not depend on the message text (#%d)", name, i+1)
+			id, isIdent := ast.Unparen(v).(*ast.Ident)
+			if !isIdent {
+				// a value computed from a string is the defect this rule is about;
+				// any other computed form is not understood
+				fromString := false
+				ast.Inspect(v, func(k ast.Node) bool {
+					if e, ok := k.(ast.Expr); ok {
+						if t := info.TypeOf(e); t != nil {
+							if b, ok := t.Underlying().(*types.Basic); ok && b.Info()&types.IsString != 0 {
+								fromString = true
+							}
+						}
+					}
+					return true
+				})
+				if fromString {
+					c.Check(rule, key, p.Pos(v.Pos()), false, "Deprecated is computed as `"+wire.Canon(v)+"`: `[deprecated(\"\")]` is accepted by readDeprecated and would be recorded as not deprecated")
+				} else {
+					c.Undecide("%s: Deprecated is set from `%s`, a form this rule does not understand", name, wire.Canon(v))
+				}
+				continue
+			}
+			obj := info.ObjectOf(id)
+			allConst, setAfterRead := true, false
+			ast.Inspect(fd.Body, func(k ast.Node) bool {
+				cc, ok := k.(*ast.CaseClause)
+				if !ok {
+					if as, ok := k.(*ast.AssignStmt); ok {
+						for i, l := range as.Lhs {
+							if lid, ok := l.(*ast.Ident); ok && info.ObjectOf(lid) == obj && i < len(as.Rhs) {
+								if tv := info.Types[as.Rhs[i]]; tv.Value == nil {
+									allConst = false
+								}
+							}
+						}
+					}
+					return true
+				}
+				read := false
+				for _, st := range cc.Body {
+					if containsCall(st, func(call *ast.CallExpr) bool { return wire.Canon(call.Fun) == "readDeprecated" }) {
+						read = true
+					}
+					if as, ok := st.(*ast.AssignStmt); ok && read && len(as.Lhs) == 1 && len(as.Rhs) == 1 {
+						if lid, ok := as.Lhs[0].(*ast.Ident); ok && info.ObjectOf(lid) == obj {
+							if tv := info.Types[as.Rhs[0]]; tv.Value != nil && tv.Value.String() == "true" {
+								setAfterRead = true
+							}
+						}
+					}
+				}
+				return true
+			})
+			c.Check(rule, key, p.Pos(v.Pos()), allConst && setAfterRead,
+				fmt.Sprintf("the variable %s is not a pure flag (only constants assigned: %v; set to true after readDeprecated: %v)", id.Name, allConst, setAfterRead))
+		}
+	}
+	c.Count("deprecated_member_sites", n)
+	c.Floor("deprecated_member_sites", 4)
+}
+
+// limitedBufio: R6. Comments, string literals and identifiers have no length
+// limit in a schema. bufio's ReadSlice, ReadLine and Peek, and bufio.Scanner,
+// fail or truncate when the data does not fit the buffer; a tokenizer built on
+// them rejects (or splits) a well-formed schema with one long line.
+func scanLimitedBufio(info *types.Info, files []*ast.File, report func(fn, what string, pos token.Pos)) {
+	for _, f := range files {
+		for _, d := range f.Decls {
+			fd, ok := d.(*ast.FuncDecl)
+			if !ok || fd.Body == nil {
+				continue
+			}
+			ast.Inspect(fd.Body, func(n ast.Node) bool {
+				switch y := n.(type) {
+				case *ast.CallExpr:
+					callee := load.Callee(info, y)
+					if callee == nil || callee.Pkg() == nil || callee.Pkg().Path() != "bufio" {
+						return true
+					}
+					if sig, ok := callee.Type().(*types.Signature); ok && sig.Recv() != nil {
+						if strings.HasSuffix(sig.Recv().Type().String(), "bufio.Reader") {
+							switch callee.Name() {
+							case "ReadSlice", "ReadLine", "Peek":
+								report(fd.Name.Name, "(*bufio.Reader)."+callee.Name(), y.Pos())
+							}
+						}
+					} else if callee.Name() == "NewScanner" {
+						report(fd.Name.Name, "bufio.NewScanner", y.Pos())
+					}
+				}
+				return true
+			})
+		}
+	}
+}
+
+func limitedBufio(c *core.Ctx, p *load.Prog, rule string) {
+	pkg := p.Bebop()
+	scanLimitedBufio(pkg.TypesInfo, pkg.Syntax, func(fn, what string, pos token.Pos) {
+		c.Check(rule, fn+" reads input through "+what, p.Pos(pos), false,
+			what+" is bounded by the buffer size (4096 bytes by default): a comment, literal or line longer than that makes ReadFile fail or split a token on a well-formed schema")
+	})
+	c.Check(rule, "the tokenizer uses no buffer-limited bufio primitive (scan complete)", "tokenize.go", true, "")
+	// positive control
+	path := filepath.Join(c.VerifDir, "fixtures", "limitedread", "fx.go")
+	fset := token.NewFileSet()
+	f, err := parser.ParseFile(fset, path, nil, 0)
+	if err != nil {
+		c.Undecide("positive control fixture: %v", err)
+		return
+	}
+	info := &types.Info{Types: map[ast.Expr]types.TypeAndValue{}, Defs: map[*ast.Ident]types.Object{}, Uses: map[*ast.Ident]types.Object{}, Selections: map[*ast.SelectorExpr]*types.Selection{}}
+	if _, err := (&types.Config{Importer: importer.ForCompiler(fset, "source", nil)}).Check("fx", fset, []*ast.File{f}, info); err != nil {
+		c.Undecide("positive control fixture does not type-check: %v", err)
+		return
+	}
+	hits := map[string]bool{}
+	scanLimitedBufio(info, []*ast.File{f}, func(fn, what string, pos token.Pos) { hits[fn] = true })
+	for _, want := range []string{"slice", "line", "peek", "scanner"} {
+		c.Check(rule, "positive control: "+want+" is recognised", "fixtures/limitedread/fx.go", hits[want], "the rule no longer matches the shape it is meant to find")
+	}
+	c.Check(rule, "positive control: ReadBytes is not reported", "fixtures/limitedread/fx.go", !hits["unlimited"], "")
+}
